@@ -286,14 +286,10 @@ fn parse_operand_list<'a>(i: SliceIter<'a, Token>) -> ParseResult<'a, Vec<Elemen
             compare_op_type,
             bool_op_type
         ) {
-            Result::Fail(e) => {
-                if firstrun {
-                    // If we don't find an operator in our first
-                    // run then this is not an operand list.
-                    return Result::Fail(e);
-                }
-                // if we don't find one on subsequent runs then
-                // that's the end of the operand list.
+            Result::Fail(_) => {
+                // No operator follows. The operand list ends here. For a
+                // single operand this yields that operand unchanged so the
+                // caller does not have to parse it a second time.
                 break;
             }
             Result::Abort(e) => {
